@@ -69,6 +69,9 @@ def run(chk):
                'of that edge at the cutting time" IS the polygon intersected with the half plane (classical; not proved here); clipping against two '
                'half planes commutes')
     chk.assume('sorted() is stable and orders by the key (choppers by distance)')
+    chk.level = 'other'
+    chk.level_note = ('per-vertex contract of the clipping loop, FP tie and structure obligations are discharged; that the clipped vertex list is exactly the set of '
+                      'transmitted neutrons rests on the classical Sutherland-Hodgman theorem (assumed) and a bounded per-neutron simulation')
     mod = kit.load(MOD)
     mod.len = vf_len
     chk.section('_chop', chop_vertices, mod)
